@@ -11,7 +11,7 @@
   (`wsched`, `msched`): a theorem about all `s : Sys` is a theorem about all
   fault schedules.
 -/
-import LtVerif.Proofs.Cq
+import LtVerif.Proofs.CqRes
 namespace LtVerif.C17
 open LtVerif LtVerif.Cq
 
@@ -86,6 +86,42 @@ theorem c17_reset_empties (s : Sys) (i : Bool) :
       ((step s (.reset i)).1.get i).bytesOut = 0 := by
   cases i <;> exact ⟨rfl, rfl, rfl⟩
 
+/-- No leak, no double release, for every history and every fault schedule:
+    in a well-accounted system (every open descriptor is held by a chunk; a
+    temp file's name exists iff a temp chunk owns it) every operation, failed
+    or not, leaves the system well-accounted. -/
+theorem c17_resources_conserved (base : Nat → Int) (s : Sys) (ops : List Op) (h : Acct base s) :
+    Acct base (run s ops) :=
+  h.of_conserve (run_conserve s ops)
+
+/-- chunkqueue_reset() releases exactly what the queue holds: afterwards every
+    descriptor and every temp-file name that is left belongs to the other
+    queue. -/
+theorem c17_reset_releases (base : Nat → Int) (s : Sys) (i : Bool) (h : Acct base s) (f : Nat) :
+    ((step s (.reset i)).1.w.files f).nfd = csum false f (s.get (!i)).chunks ∧
+      ((step s (.reset i)).1.w.files f).nlink = base f + csum true f (s.get (!i)).chunks := by
+  have h' := h.of_conserve (step_conserve s (.reset i)) f
+  cases i
+  · simpa [Sys.chunks, step, reset, Sys.get, Sys.set] using h'
+  · simpa [Sys.chunks, step, reset, Sys.get, Sys.set] using h'
+
+/-- After both queues are reset nothing the queues created is left: no open
+    descriptor, no temp file (the names that remain are the `base` ones). -/
+theorem c17_reset_releases_all (base : Nat → Int) (s : Sys) (ops : List Op) (h : Acct base s) (f : Nat) :
+    ((run s (ops ++ [.reset false, .reset true])).w.files f).nfd = 0 ∧
+      ((run s (ops ++ [.reset false, .reset true])).w.files f).nlink = base f := by
+  have h' := c17_resources_conserved base s (ops ++ [.reset false, .reset true]) h f
+  have hc : (run s (ops ++ [.reset false, .reset true])).chunks = [] := by
+    have : ∀ (t : Sys), (run t [.reset false, .reset true]).chunks = [] := fun t => rfl
+    have hrun : ∀ (a b : List Op) (t : Sys), run t (a ++ b) = run (run t a) b := by
+      intro a
+      induction a with
+      | nil => intro b t; rfl
+      | cons x xs ih => intro b t; exact ih b _
+    rw [hrun]; exact this _
+  rw [hc] at h'
+  simpa using h'
+
 /-! ### non-vacuity -/
 
 /-- the invariant holds initially, whatever the configuration and schedules -/
@@ -103,6 +139,13 @@ example : (run (init demoWorld rfl) demoOps).abs true = [4] := by decide
 example : (run (init demoWorld rfl) demoOps).abs false = [5, 1] := by decide
 example : ((run (init demoWorld rfl) demoOps).get true).length = 1 := by decide
 example : OpOK (init demoWorld rfl) (.appendMem false [1, 2, 3]) := trivial
+/-- the initial system is well-accounted (no names, no descriptors, no chunks) -/
+example : Acct (fun _ => 0) (init demoWorld rfl) := fun _ => ⟨rfl, rfl⟩
+/-- the demo history really creates temp files (two of them, the second after
+    ENOSPC; the first one is unlinked again once its last byte is consumed) -/
+example : ((run (init demoWorld rfl) demoOps).w.files 0).nlink = 0 ∧
+    ((run (init demoWorld rfl) demoOps).w.files 1).nlink = 1 ∧ (run (init demoWorld rfl) demoOps).w.nfiles = 2 := by
+  decide
 example : (Op.steal true 4).spills = false := rfl
 
 end LtVerif.C17
